@@ -117,6 +117,26 @@ def _prove1(pc, side, goal, quick=False):
                 ok = poly_identity(pc, side, goal)
             except Exception as e:  # translation outside the fragment
                 ok = False
+            if not ok and not quick:
+                try:
+                    g1, subs = implied_equalities(pc, goal)
+                    g2 = elim_ite(pc, side, g1)
+                    if z3.is_true(g2):
+                        ok = True
+                    elif not z3.eq(g2, goal):
+                        try:
+                            ok = poly_identity(pc, side, g2)
+                        except Exception:
+                            ok = False
+                        if not ok:
+                            # the simplified (If-free / substituted) goal is often within z3's reach
+                            s3 = core.mk_solver(3000)
+                            s3.add(*pc)
+                            s3.add(*side)
+                            s3.add(z3.Not(g2))
+                            ok = s3.check() == z3.unsat
+                except Exception as e:
+                    ok = False
             STATS['sympy'] += 1
             STATS['sympy_s'] += time.time() - t1
             if ok:
@@ -131,6 +151,118 @@ def _prove1(pc, side, goal, quick=False):
     if r2 == 'unsat':
         return Verdict('proved', backend='cvc5')
     return Verdict('undecided', backend='z3+sympy+cvc5', note='z3: %s' % s.reason_unknown())
+
+
+def elim_ite(pc, side, term, budget=400):
+    """replace every If(c, a, b) whose condition is decided by pc (and side) by the live branch"""
+    s = core.mk_solver(1000)
+    s.add(*pc)
+    s.add(*side)
+    cache = {}
+    count = [0]
+
+    def go(t):
+        k = t.get_id()
+        if k in cache:
+            return cache[k]
+        if z3.is_app(t) and t.decl().kind() == z3.Z3_OP_ITE:
+            c = go(t.arg(0))
+            r = None
+            if z3.is_true(c):
+                r = go(t.arg(1))
+            elif z3.is_false(c):
+                r = go(t.arg(2))
+            elif count[0] < budget:
+                count[0] += 1
+                if s.check(z3.Not(c)) == z3.unsat:
+                    r = go(t.arg(1))
+                elif s.check(c) == z3.unsat:
+                    r = go(t.arg(2))
+                else:
+                    a1, a2 = go(t.arg(1)), go(t.arg(2))
+                    if not z3.is_bool(a1):
+                        # the conditional equals one of its branches under the path condition (max(0, off) with off >= 0)
+                        if s.check(z3.And(c, a1 != a2)) == z3.unsat:
+                            r = a2
+                        elif s.check(z3.And(z3.Not(c), a1 != a2)) == z3.unsat:
+                            r = a1
+            if r is None:
+                r = z3.If(c, go(t.arg(1)), go(t.arg(2)))
+        elif z3.is_app(t) and t.num_args() > 0:
+            ch = [go(a) for a in t.children()]
+            try:
+                r = t.decl()(*ch)
+            except z3.Z3Exception:
+                r = t
+        else:
+            r = t
+        cache[k] = r
+        return r
+    return z3.simplify(go(term))
+
+
+def implied_equalities(pc, goal):
+    """integer constants of the goal that the path condition pins to a linear term (v >= t and v <= t): substituted"""
+    s = core.mk_solver(1000)
+    s.add(*pc)
+    consts = {}
+
+    def collect(t):
+        if z3.is_const(t) and t.decl().kind() == z3.Z3_OP_UNINTERPRETED and z3.is_int(t):
+            consts[t.decl().name()] = t
+        for c in t.children():
+            collect(c)
+    collect(goal)
+    subs = []
+    gone = set()
+    for name, v in sorted(consts.items()):
+        cands = []
+        for p in pc:
+            q = p
+            neg = False
+            if z3.is_not(q):
+                q, neg = q.arg(0), True
+            if not z3.is_app(q) or q.num_args() != 2:
+                continue
+            k = q.decl().kind()
+            if k not in (z3.Z3_OP_LE, z3.Z3_OP_GE, z3.Z3_OP_LT, z3.Z3_OP_GT, z3.Z3_OP_EQ):
+                continue
+            a, b = q.arg(0), q.arg(1)
+            if not z3.is_int(a):
+                continue
+            for x, y in ((a, b), (b, a)):
+                if z3.eq(x, v):
+                    for d in (0, 1, -1):
+                        cands.append(y + d if d else y)
+        seen = set()
+        for t in cands:
+            t = z3.simplify(t)
+            if t.get_id() in seen or z3.eq(t, v):
+                continue
+            seen.add(t.get_id())
+            # the candidate must not mention v itself nor a constant that was already eliminated (no cycles)
+            names = [d.name() for d in _consts_of(t)]
+            if name in names or any(n in gone for n in names):
+                continue
+            if s.check(v != t) == z3.unsat:
+                subs.append((v, t))
+                gone.add(name)
+                break
+    if not subs:
+        return goal, []
+    g = goal
+    for v, t in subs:
+        g = z3.substitute(g, (v, t))
+    return z3.simplify(g), subs
+
+
+def _consts_of(t, acc=None):
+    acc = [] if acc is None else acc
+    if z3.is_const(t) and t.decl().kind() == z3.Z3_OP_UNINTERPRETED:
+        acc.append(t.decl())
+    for c in t.children():
+        _consts_of(c, acc)
+    return acc
 
 
 def cvc5_check(pc, side, goal):
@@ -163,6 +295,7 @@ def poly_identity(pc, side, goal):
     if z3.is_bool(l):
         return False
     syms = {}
+    apps = {}
 
     def tr(t):
         if z3.is_rational_value(t):
@@ -173,6 +306,14 @@ def poly_identity(pc, side, goal):
             n = t.decl().name()
             if n not in syms:
                 syms[n] = sympy.Symbol(n.replace('!', '_').replace('.', '_'), real=True)
+            return syms[n]
+        if z3.is_app(t) and t.decl().kind() == z3.Z3_OP_UNINTERPRETED:
+            # application of an uninterpreted function (array contents at an index): an opaque atom keyed by the
+            # simplified term (sound: syntactically different index terms give different atoms, which can only lose proofs)
+            n = 'uf:' + z3.simplify(t).sexpr()
+            if n not in syms:
+                syms[n] = sympy.Symbol('uf_%d' % len(syms), real=True)
+                apps[n] = t
             return syms[n]
         k = t.decl().kind()
         ch = [tr(c) for c in t.children()]
@@ -208,7 +349,12 @@ def poly_identity(pc, side, goal):
     for p in pc:
         if z3.is_eq(p) and not z3.is_bool(p.arg(0)):
             eqs.append(p)
-    seqs = [sympy.expand(tr(e.arg(0)) - tr(e.arg(1))) for e in eqs]
+    seqs = []
+    for e in eqs:
+        try:
+            seqs.append(sympy.expand(tr(e.arg(0)) - tr(e.arg(1))))
+        except ValueError:
+            continue
     # solve the (small) polynomial system for quotient symbols / simple constants
     unknowns = [v for n, v in syms.items() if n.startswith('quot!') or n.startswith('cquot!')]
     if unknowns:
